@@ -415,7 +415,52 @@ class Evaluator:
                 b = v[1]
                 return ("bytes", b[e[1]:len(b) - e[2]] if e[3] else b[e[1]:e[2]])
             return ("proj", v, e)
+        if k == "rsub":
+            # a mutable view `&mut v[lo..hi]` kept as a place (models.m_index): read as the sub-slice value
+            return ("app", "subslice", (v, e[1], e[2] if e[2] is not None else len_term(v)))
         raise Unsupported("projection %r" % (e,))
+
+    def view_of(self, st, tgt):
+        """(target of the underlying vector, lo, hi) when `tgt` is a chain of `rsub` views over a place holding a byte sequence
+        built in this function (a `seq` value); None otherwise"""
+        projs = tgt[-1]
+        n = len(projs)
+        while n > 0 and projs[n - 1][0] == "rsub":
+            n -= 1
+        base_t = tgt[:-1] + (projs[:n],)
+        if tgt[0] not in ("loc", "heap"):
+            return None
+        try:
+            base = self.load(st, base_t)
+        except Unsupported:
+            return None
+        if base[0] != "seq":
+            return None
+        lo, hi = mk_int(0, "usize"), len_term(base)
+
+        def add(a, b):
+            if a[0] == "int" and b[0] == "int":
+                return mk_int(a[1] + b[1], "usize")
+            if a[0] == "int" and a[1] == 0:
+                return b
+            if b[0] == "int" and b[1] == 0:
+                return a
+            return ("app", "Add", (a, b))
+        for e in projs[n:]:
+            nlo = add(lo, e[1])
+            hi = add(lo, e[2]) if e[2] is not None else hi
+            lo = nlo
+        return (base_t, lo, hi)
+
+    def write_overlay(self, st, tgt, content, where):
+        """overwrite the range viewed by `tgt` (see view_of) with `content` = ('elems', (..)) | ('fill', value)"""
+        vw = self.view_of(st, tgt)
+        if vw is None:
+            return False
+        base_t, lo, hi = vw
+        base = self.load(st, base_t)
+        self.store(st, base_t, ("seq", base[1] + (("overlay", lo, hi, content),)), where)
+        return True
 
     def update(self, st, v, projs, val, where):
         if not projs:
@@ -2025,13 +2070,19 @@ def len_term(v):
             return mk_int(max(hi[1] - lo[1], 0), "usize")
         if hi == len_term(base):
             return ("app", "Sub", (hi, lo)) if lo[1] else hi       # s[lo..]: len(s) - lo
+        if base[0] == "seq" or (base[0] == "app" and base[1] == "subslice"):
+            # a sub-slice that exists (taking it was an index obligation of its own) has hi - lo elements
+            return ("app", "Sub", (hi, lo)) if lo[1] else hi
     if v[0] == "bytes":
         return mk_int(len(v[1]), "usize")
     if v[0] == "array":
         return mk_int(len(v[1]), "usize")
     if v[0] == "seq":
         n = 0
-        for it in v[1]:
+        items = [it for it in v[1] if it[0] != "overlay"]          # an overlay rewrites a range in place: the length stays
+        if len(items) == 1 and items[0][0] == "fill_to" and v[1][0][0] == "fill_to":
+            return items[0][1]                                        # vec![x; n]
+        for it in items:
             if it[0] == "elem":
                 n += 1
             elif it[0] == "splice" and it[1][0] == "bytes":
@@ -2172,7 +2223,7 @@ def fmt_term(t, depth=0):
     if k == "unwrap":
         return "unwrap(%s)" % f(t[1])
     if k == "seq":
-        return "seq[" + ", ".join(("%s" % f(i[1])) if i[0] == "elem" else ("*%s" % f(i[1])) if i[0] == "splice" else ("(%s)*" % ", ".join(f(x[1]) for x in i[1])) if i[0] in ("mapped", "mapped_all", "mapped_some") else "fill_to(%s,%s)" % (f(i[1]), f(i[2])) for i in t[1]) + "]"
+        return "seq[" + ", ".join(("%s" % f(i[1])) if i[0] == "elem" else ("*%s" % f(i[1])) if i[0] == "splice" else ("(%s)*" % ", ".join(f(x[1]) for x in i[1])) if i[0] in ("mapped", "mapped_all", "mapped_some") else ("overlay[%s..%s]=%s" % (f(i[1]), f(i[2]), ("fill " + f(i[3][1])) if i[3][0] == "fill" else "[" + ", ".join(f(x) for x in i[3][1]) + "]")) if i[0] == "overlay" else "fill_to(%s,%s)" % (f(i[1]), f(i[2])) for i in t[1]) + "]"
     if k == "item":
         return "item(%s)" % f(t[1])
     if k == "fn":
